@@ -18,12 +18,21 @@ Unset == "unset"
 \* sources in decreasing priority; "default" always sets every option
 Sources == <<"cli", "pwd", "user">>
 
-Opts == {"scalar_type", "sum_factorization", "table_rtol", "part", "language"}
+Opts == {"scalar_type", "sum_factorization", "table_rtol", "table_atol", "epsilon", "verbosity", "part", "language"}
 Default == [scalar_type |-> "float64", sum_factorization |-> "false", table_rtol |-> "1e-06",
+            table_atol |-> "1e-09", epsilon |-> "1e-14", verbosity |-> "30",
             part |-> "full", language |-> "C"]
+\* The numeric options range over an explicit 0 (a *falsy* value that is nevertheless "set") and a
+\* non-zero value different from the default; the default itself only comes from the default source.
 Values == [scalar_type |-> {"float32", "float64"}, sum_factorization |-> {"true", "false"},
-           table_rtol |-> {"1e-06", "0.001"}, part |-> {"full", "diagonal"},
-           language |-> {"C", "numba"}]
+           table_rtol |-> {"0", "0.001"}, table_atol |-> {"0", "0.3"}, epsilon |-> {"0", "1e-07"},
+           verbosity |-> {"0", "40"}, part |-> {"full", "diagonal"}, language |-> {"C", "numba"}]
+
+\* What the generated code exhibits when option o has value v (behavioural witness classes).
+\* table_atol = 0.3 rounds the tabulated basis values: the kernel's tensor is grossly wrong ("clamped");
+\* 0 and the default 1e-09 both give the exact tensor.  Other witnesses show the value itself.
+Witness(o, v) == IF o = "table_atol" THEN (IF v = "0.3" THEN "clamped" ELSE "exact") ELSE v
+
 \* what a source can say: a json file any value; the command line cannot negate a flag
 SourceValues(o, s) == IF s = "cli" /\ o = "sum_factorization" THEN {"true"} ELSE Values[o]
 
@@ -51,7 +60,7 @@ OSpec == OInit /\ [][ONext]_cfg
 Prio(s) == CHOOSE k \in 1..3 : Sources[k] = s     \* 1 = highest
 
 (* ------- theorems about Effective, checked on the whole domain --------- *)
-TypeOK == \A o \in Opts : cfg[o] \in Assignments(o) /\ Effective(cfg, o) \in Values[o]
+TypeOK == \A o \in Opts : cfg[o] \in Assignments(o) /\ Effective(cfg, o) \in Values[o] \cup {Default[o]}
 NothingSetGivesDefault == \A o \in Opts : cfg[o] = AllUnset[o] => Effective(cfg, o) = Default[o]
 CliWins == \A o \in Opts : cfg[o].cli # Unset => Effective(cfg, o) = cfg[o].cli
 PwdBeatsUser == \A o \in Opts : (cfg[o].cli = Unset /\ cfg[o].pwd # Unset) => Effective(cfg, o) = cfg[o].pwd
